@@ -25,6 +25,7 @@
     theorem load_total : ∀ text, from_path text = ok ∨ from_path text = raises ColangParsingError (naming the file)
 -/
 import NemoVerif.Lemmas.Layout
+import NemoVerif.Lemmas.NumberedLines
 import NemoVerif.Models.ErrWrap
 
 namespace NemoVerif.C13
@@ -144,6 +145,55 @@ theorem layout_scale (c : Cfg) (k : Nat) (hk : 1 ≤ k) (ps : List Piece) :
 example : layoutE pinnedCfg (scaleP 0 false [.tok "_FLOW" "flow", .nl false, .ws .sp, .tok "NAME" "b", .nl false]) ≠
     layoutE pinnedCfg [.tok "_FLOW" "flow", .nl false, .ws .sp, .tok "NAME" "b", .nl false] := by
   simp [layoutE, layout, scaleP, go, flush, handleNL, bump, pinnedCfg, St.init, width, top, popWhile, finalDedents, Except.bind, Except.map, erase]
+
+/-! ## Colang 1.0: `get_numbered_lines` -/
+
+open NemoVerif.NumberedLines in
+/-- Blank lines (empty or made of any `str.isspace` characters) inserted at any loop boundary of
+    `get_numbered_lines` — i.e. anywhere except inside a multi-line string or between a line ending in
+    `\` / ` or` and its continuation — leave every record (text, indentation, comment) unchanged.
+    `runPre` computes the state after the prefix; `atBoundary` is the decidable "not inside" condition. -/
+theorem numbered_lines_blank (pre post : List Str) (b : Str) (hb : strip b = [])
+    (st' : NumberedLines.St) (out : List Rec) (hpre : runPre NumberedLines.St.init pre = .ok (st', out)) (hB : st'.atBoundary = true) :
+    numbered (pre ++ b :: post) = numbered (pre ++ post) := by
+  unfold numbered
+  rw [run_append, run_append, hpre]
+  simp only [run, step_blank st' b hb hB]
+  cases h : run st' post <;> simp [h]
+
+open NemoVerif.NumberedLines in
+/-- non-vacuity: after `define flow a` / `  user hi` the parser is at a boundary. -/
+example : ∃ st' out, runPre NumberedLines.St.init [['d', 'e', 'f', ' ', 'a'], [' ', ' ', 'u', ' ', 'h']] = .ok (st', out) ∧ st'.atBoundary = true := by
+  refine ⟨_, _, rfl, ?_⟩
+  decide
+
+open NemoVerif.NumberedLines in
+/-- Trailing whitespace (any `str.isspace` characters, tabs and `\r` included) appended to any number of lines
+    changes nothing, provided the line is not the first line of a multi-line string (`"…` without closing quote —
+    there the blanks are inside the string, and `multiline_indentation` counts them). -/
+theorem numbered_lines_trailing (ls ls' : List Str)
+    (h : Pointwise (fun l l' => ∃ ws, (∀ c ∈ ws, isPyWs c = true) ∧ l' = l ++ ws ∧ isOpener (strip l) = false) ls ls') :
+    numbered ls' = numbered ls := by
+  unfold numbered
+  symm
+  apply run_pointwise _ _ ls ls' h
+  intro st a b' hab
+  obtain ⟨ws, hws, rfl, hno⟩ := hab
+  exact (step_trailing st a ws hws hno).symm
+
+open NemoVerif.NumberedLines in
+/-- kernel-checked witness (finite fact) that the exclusion above is needed: trailing blanks on the first line of a
+    multi-line string change the record's `indentation`. -/
+theorem numbered_lines_trailing_opener_witness :
+    (numbered [[' ', ' ', '"', 'a'], [' ', ' ', 'b', '"']]).toOption.map (List.map Rec.indentation) = some [2] ∧
+    (numbered [[' ', ' ', '"', 'a', ' ', ' '], [' ', ' ', 'b', '"']]).toOption.map (List.map Rec.indentation) = some [4] := by
+  decide
+
+/-
+  Not proved for 1.0 (searched only): scaling — `indentation` of ordinary records scales with the leading spaces
+  (`lead`), but the multi-line-string record's `multiline_indentation` also counts trailing blanks, and what the
+  1 900-line parser does with the numbers (it only compares them) is outside the model.
+-/
 
 /-! ## Error wrapper -/
 
